@@ -48,6 +48,12 @@ class C15(Prop):
             tries += 1
             under = rng.random() < 0.4
             sys = gs.gen_system(rng, mrange=(2, 4), nrange=(2, 6), finite_ub=True, shape=("under" if under else None))
+            intb = False
+            if rng.random() < 0.2:
+                # whole-number bounds, handed over as integer arrays in the original units (the twin's bounds ub/s are floats)
+                lb2 = np.zeros(sys["n"]); ub2 = np.ceil(np.asarray(sys["ub"], dtype=float))
+                if gs.well_scaled(sys["A"], lb2, ub2, sys["K"], sys["baseline"]):
+                    sys = dict(sys, lb=lb2, ub=ub2); intb = True
             got = gs.gen_target_regime(rng, sys, rng.choice(["inside", "outside", "face", "far"]))
             if got is None:
                 continue
@@ -58,9 +64,9 @@ class C15(Prop):
                 s = 2.0 ** rng.randint(-13, 13); c = 2.0 ** rng.randint(-13, 13)
             elif wide:
                 # captures >= 1 with no upper limit: capture units up to 1e4 times smaller, intensity bounds kept in [0.05, 10]
-                c = rng.choice([2.0 ** rng.randint(7, 13), float(int(10 ** rng.uniform(2, 4)))]); s = rng.choice([0.25, 0.5, 1.0, 2.0, 4.0, rng.uniform(0.3, 3.0)])
+                c = rng.choice([2.0 ** rng.choice([7, 8, 9, 10, 11, 12, 12, 13, 13, 13]), float(int(10 ** rng.uniform(2, 4)))]); s = rng.choice([0.25, 0.5, 1.0, 2.0, 4.0, 4.0, rng.uniform(0.3, 3.0)])
             else:
-                s = rng.choice([0.25, 0.5, 2.0, 4.0, 1.0, rng.uniform(0.3, 3.0)]); c = rng.choice([0.25, 0.5, 2.0, 4.0, 8.0, 1.0, rng.uniform(0.3, 6.0)])
+                s = rng.choice([0.25, 0.5, 2.0, 4.0, 1.0, rng.uniform(0.3, 3.0), 0.0625, 0.125, 8.0, 16.0, 32.0]); c = rng.choice([0.25, 0.5, 2.0, 4.0, 8.0, 1.0, rng.uniform(0.3, 6.0), 0.0625, 0.03125])
             ts = twin_sys(sys, s, c)
             if wide:
                 tub = np.asarray(ts["ub"]); tlb = np.asarray(ts["lb"])
@@ -71,11 +77,13 @@ class C15(Prop):
                 continue
             ser = lambda d: {k: (v.tolist() if isinstance(v, np.ndarray) else v) for k, v in d.items()}
             cases.append({"sys": ser(sys), "b": np.asarray(b).tolist(), "x": None if x is None else np.asarray(x).tolist(), "tk": kind,
-                          "s": float(s), "c": float(c), "acc": rng.choice(["default", "high"]), "stress": bool(stress and not ok), "under": under, "wide": bool(wide),
+                          "s": float(s), "c": float(c), "acc": rng.choice(["default", "high"]), "stress": bool(stress and not ok), "under": under, "wide": bool(wide), "intb": intb,
                           "kind": "%s/%s/%s" % ("stress" if (stress and not ok) else ("wide" if wide else "asserted"), kind, "under" if sys["n"] > sys["m"] else "det")})
         return cases
 
-    def one(self, sys, b, case, hull_targets):
+    def one(self, sys, b, case, hull_targets, ints=False):
+        if ints:
+            sys = dict(sys, lb=np.asarray(sys["lb"]).astype(int), ub=np.asarray(sys["ub"]).astype(int))
         est = gs.make_estimator(sys)
         kw = dict(HI) if case["acc"] == "high" else {}
         r = {}
@@ -139,7 +147,7 @@ class C15(Prop):
         s, c = case["s"], case["c"]
         ts = twin_sys(sys, s, c)
         T = self.hull_targets(case, sys)
-        r1 = self.one(sys, np.asarray(case["b"]), case, T)
+        r1 = self.one(sys, np.asarray(case["b"]), case, T, ints=bool(case.get("intb")))
         r2 = self.one(ts, np.asarray(case["b"]) * c, case, T * c)
         return {"orig": r1, "twin": r2}
 
